@@ -15,7 +15,9 @@ def strategy(tp):
     return st.fixed_dictionaries({
         "side": st.sampled_from(["request", "request", "response"]),
         "delta": delta,
-        "growth": st.sampled_from(["uri", "one-field", "many-fields", "field-name", "method-line-only"]),
+        "growth": st.sampled_from(["uri", "one-field", "many-fields", "field-name", "method-line-only", "obs-fold-ws", "ws-prefix-line",
+                                   "obs-fold-ws", "one-field", "ws-prefix-line"]),
+        "wsbyte": st.sampled_from([" ", "\t", " \t"]),
         "segments": st.lists(st.one_of(st.integers(1, 50), st.integers(100, 3000)), min_size=0, max_size=6),
         "pauses": st.lists(st.sampled_from([0, 1, 5]), min_size=0, max_size=6),
         "version": st.sampled_from(["HTTP/1.1", "HTTP/1.1", "HTTP/1.0"]),
@@ -76,6 +78,15 @@ def build_request(env, path, total, sc):
         head = line() + tail + "X-Pad: " + "a" * (need - 9) + "\r\n\r\n"
     elif g == "field-name":
         head = line() + tail + "X-" + "n" * (need - 7) + ": v\r\n\r\n"
+    elif g == "obs-fold-ws":
+        # the excess is whitespace of an obs-fold continuation, which the parser collapses to one SP before field parsing:
+        # the limit is on the bytes received (squid.conf: "maximum size for HTTP headers in a request"), not on what is left after clean-up
+        ws = (sc.get("wsbyte", " ") * need)[:need - 13]
+        head = line() + tail + "X-Pad: a\r\n" + ws + "b\r\n\r\n"
+    elif g == "ws-prefix-line":
+        # a whitespace-preceded line between the request line and the first field (dropped by the tolerant parser)
+        ws = (sc.get("wsbyte", " ") * need)[:1]
+        head = line() + ws + "x" * (need - 3) + "\r\n" + tail + "\r\n"
     else:
         head = line() + tail + _pad_fields(need) + "\r\n"
     if len(head) != total:
